@@ -66,6 +66,19 @@ def do_case(ctx, inp):
         nb = pnd.boolean_ndarray.from_list([lst, lst[:1]], ids).tolist()
         if [[int(x) for x in r] for r in nb] != [[int(i in l) for i in ids] for l in (lst, lst[:1])]:
             ctx.fail("nested-from_list-wrong", {"got": nb})
+    # nested / empty forms of the list conversions, and to_list on a matrix
+    if lst:
+        ni = pnd.integer_ndarray.from_list([lst, lst[:1]], ids).tolist()
+        if [[int(x) for x in r] for r in ni] != [[(1 + l.index(i)) if i in l else 0 for i in ids] for l in (lst, lst[:1])]:
+            ctx.fail("nested-integer-from_list-wrong", {"got": ni})
+    for cls_ in (pnd.boolean_ndarray, pnd.integer_ndarray):
+        if len(np.asarray(cls_.from_list([], ids)).tolist()) not in (0, len(ids)) or any(np.asarray(cls_.from_list([], ids)).flatten().tolist()):
+            ctx.fail("empty-from_list-wrong", {"class": cls_.__name__})
+    vec2 = [vec, [1 - min(v, 1) for v in vec]]
+    tl2 = pnd.boolean_ndarray(np.array(vec2, dtype=np.int64), variables=vs).to_list()
+    want2 = [[i for i, v in zip(ids, row) if v == 1] for row in vec2]
+    if [[v.id for v in row] for row in tl2] != want2:
+        ctx.fail("to_list-of-a-matrix-wrong", {"got": [[repr(v.id) for v in row] for row in tl2]})
     if tl != [i for i, v in zip(ids, vec) if v == 1]:
         ctx.fail("to_list-wrong", {"got": [repr(i) for i in tl]})
     wb = [j for j, b_ in enumerate(bnds) if b_ == [0, 1]]
